@@ -395,6 +395,7 @@ func (g *gen) quotedList(ctx string, depth int, quoteMark bool) {
 func (g *gen) quoteMarkOpen() {
 	g.e.quote()
 	g.e.w("(")
+	g.e.depth++
 }
 
 func (g *gen) dataList(d int) {
@@ -671,6 +672,7 @@ func (g *gen) fn(d, arity int) {
 		g.e.w("#^")
 		g.e.hidden("lisp:expr")
 		g.e.w("(")
+		g.e.depth++
 		g.e.op([]string{"+", "*", "-"}[g.intn(3)])
 		g.e.op("%")
 		saved := g.noPrefixLambda
